@@ -23,11 +23,15 @@ REQUIRED_HOOKS = [
     "op:gauss",
     "op:cov",
     "op:cache_clear",
+    "op:tf_session",
+    "session:same-object-call",
+    "session:edit-returned",
+    "session:edit-input",
     "observe:cache-on",
     "observe:cache-off",
     "cache-walk",
 ]
-REQUIRED_FAMILIES = ["aliasing-witness", "mixed", "angular-edit", "atom-mol", "transform", "tables"]
+REQUIRED_FAMILIES = ["aliasing-witness", "transform-reuse", "mixed", "angular-edit", "atom-mol", "transform", "tables"]
 BUDGET = {"quick": 400, "thorough": 3600}
 RULE = (
     "One case = one random HISTORY of 10-40 operations executed on the real library inside a worker process whose module-level "
@@ -39,7 +43,12 @@ RULE = (
     "-(2^40 + 64*history + op); AtomGrid(degrees | sizes | from_pruned; centre; rotate 0 or seed); get_shell_grid(i, r_sq); integrate; "
     "MolGrid(1-3 atoms, Becke or explicit weights, store on/off); transform / deriv / deriv2 / deriv3 / inverse / deriv*_inverse / "
     "transform_1d_grid / set_maximum_parameter_b in random order on LinearInfinite/Exp/Power (b given, or inferred from the first array seen) "
-    "and Hyperbolic instances; load_atomic_gaussian_params(symbol|number); get_cov_radii; <METHOD>_CACHE.clear(). "
+    "and Hyperbolic instances; transform SESSIONS on one instance of any of the 12 transform classes (Exp, Power, LinearInfinite, Hyperbolic, Becke, Knowles, "
+    "Handy, HandyMod, MultiExp, LinearFinite, Identity, Inverse): the SAME argument array object (and a OneDGrid holding it) is reused across successive calls of "
+    "different methods, interleaved with in-place sentinel edits of arrays RETURNED by earlier calls and in-place admissible changes of the ARGUMENT array; after every "
+    "step every method is called again with the same objects (random order) and must equal, bit for bit, a fresh instance (same b) evaluated on a COPY of the current "
+    "values (family transform-reuse: 12 classes x 6 (quick) / 60 (thorough) such sessions, deterministic class coverage); "
+    "load_atomic_gaussian_params(symbol|number); get_cov_radii; <METHOD>_CACHE.clear(). "
     "After EVERY operation: (a) structural walk of the discovered module-level caches against the shipped files (evidence; a corrupt "
     "entry aims an API observation at it); (b) deciding, API only: the objects the operation concerns are constructed again with cache on AND "
     "off and compared with the ABSOLUTE model (angular arrays bit-identical to the shipped file x 4pi where applicable; atomic/molecular grids "
@@ -67,13 +76,13 @@ TECHNIQUE = "runtime monitoring: history monitor with absolute reference model (
 METHODS = ["lebedev", "spherical", "maxdet", "ahrens_beylkin"]
 SIZE_CAP_ANG = {"lebedev": 1202, "spherical": 1000, "maxdet": 1700, "ahrens_beylkin": 800}
 SIZE_CAP_SHELL = {"lebedev": 350, "spherical": 330, "maxdet": 400, "ahrens_beylkin": 320}
-OPS = ["ang_new", "edit", "atom_new", "shell", "integrate", "mol_new", "tf_new", "tf_call", "gauss", "cov", "cache_clear"]
+OPS = ["ang_new", "edit", "atom_new", "shell", "integrate", "mol_new", "tf_new", "tf_call", "gauss", "cov", "cache_clear", "tf_session"]
 WEIGHTS = {
-    "mixed": [5, 6, 3, 3, 2, 1, 1.5, 5, 2, 1, 0.4],
-    "angular-edit": [8, 8, 1, 1, 1, 0, 0, 0, 0, 0, 0.6],
-    "atom-mol": [2, 6, 5, 5, 2, 2.5, 0, 0, 0, 0, 0.3],
-    "transform": [0.5, 3, 0, 0, 0, 0, 2, 10, 0, 0, 0],
-    "tables": [0.5, 5, 0, 0, 0, 0, 0, 0, 5, 3, 0],
+    "mixed": [5, 6, 3, 3, 2, 1, 1.5, 4, 2, 1, 0.4, 2],
+    "angular-edit": [8, 8, 1, 1, 1, 0, 0, 0, 0, 0, 0.6, 0],
+    "atom-mol": [2, 6, 5, 5, 2, 2.5, 0, 0, 0, 0, 0.3, 0],
+    "transform": [0.5, 3, 0, 0, 0, 0, 2, 8, 0, 0, 0, 5],
+    "tables": [0.5, 5, 0, 0, 0, 0, 0, 0, 5, 3, 0, 0],
 }
 SHARE = {"mixed": 0.40, "angular-edit": 0.20, "atom-mol": 0.20, "transform": 0.12, "tables": 0.08}
 COST = {"mixed": 1.0, "angular-edit": 0.8, "atom-mol": 1.6, "transform": 0.4, "tables": 0.3}
@@ -81,6 +90,21 @@ N_HIST = {"quick": 448, "thorough": 5600}
 TF_CLASSES = ["LinearInfiniteRTransform", "ExpRTransform", "PowerRTransform", "HyperbolicRTransform"]
 FWD = ["transform", "deriv", "deriv2", "deriv3", "set_maximum_parameter_b", "transform_1d_grid"]
 INV = ["inverse", "deriv_inverse", "deriv2_inverse", "deriv3_inverse"]
+SESSION_CLASSES = [
+    "ExpRTransform",
+    "PowerRTransform",
+    "LinearInfiniteRTransform",
+    "HyperbolicRTransform",
+    "BeckeRTransform",
+    "KnowlesRTransform",
+    "HandyRTransform",
+    "HandyModRTransform",
+    "MultiExpRTransform",
+    "LinearFiniteRTransform",
+    "IdentityRTransform",
+    "InverseRTransform",
+]
+FWD4 = ["transform", "deriv", "deriv2", "deriv3"]
 ELEMENTS = {"H": 1, "C": 6, "N": 7, "O": 8, "Cl": 17}
 MAX_LIVE = 14
 _cov_snapshot = {}
@@ -96,6 +120,12 @@ def cases(tier, seed):
                 out.append(("aliasing-witness", {"method": m, "attr": attr, "first_cache": first_cache, "hid": 60000 + i}, 1e9))
                 i += 1
     out.append(("recorded-not-decided", {"hid": 60100}, 1e8))
+    nrep = 6 if tier == "quick" else 60
+    j = 0
+    for cls in SESSION_CLASSES:
+        for k in range(nrep):
+            out.append(("transform-reuse", {"cls": cls, "k": k, "hid": 61000 + j}, 20.0))
+            j += 1
     rng = np.random.default_rng([int(seed) & 0xFFFFFFFF, 19])
     n = N_HIST[tier]
     hid = 0
@@ -174,6 +204,7 @@ class History:
         self.tfs = []
         self.log = []
         self.seen_corrupt = set()
+        self.sessions = []
 
     # -------------------------------------------------------------------------------------------- bookkeeping
     def add(self, rec):
@@ -301,6 +332,8 @@ class History:
     def fresh_tf(self, rec):
         import grid.rtransform as rt
 
+        if "factory" in rec:
+            return rec["factory"]()
         cls = getattr(rt, rec["cls"])
         if rec["cls"] == "HyperbolicRTransform":
             return cls(*rec["args"])
@@ -476,6 +509,8 @@ class History:
             self.observe_tf(rec, why)
         for sym in sorted(self.syms):
             self.observe_gauss(sym, why)
+        for ss in self.sessions[-4:]:
+            self.session_sweep(ss, why)
         for rec in self.live:
             self.check_live(rec, why)
         ch = H.changed_constants()
@@ -816,6 +851,277 @@ class History:
         if gd.ok:
             self.compare_tf(tf, rec["meth"], rec["arg"], res, why)
 
+    # -------------------------------------------------------------------------------------------- transform sessions
+    def make_session_tf(self, cls):
+        """A transform record of any of the 12 classes (constructor arguments drawn here; model = same arguments)."""
+        import grid.rtransform as rt
+
+        rng = self.rng
+        if cls in ("ExpRTransform", "PowerRTransform", "LinearInfiniteRTransform"):
+            rmin, rmax = float(10 ** rng.uniform(-4, -1)), float(rng.uniform(1.0, 50.0))
+            b = None if rng.random() < 0.5 else float(rng.uniform(4, 40))
+            rec = {"kind": "tf", "cls": cls, "args": (rmin, rmax), "b": b, "infer": b is None, "dom": "pos"}
+            with self.guard(cls) as gd:
+                rec["obj"] = getattr(rt, cls)(rmin, rmax, b)
+            return rec if gd.ok else None
+        if cls == "HyperbolicRTransform":
+            args = (float(rng.uniform(0.1, 5.0)), float(rng.uniform(0.005, 0.06)))
+            make = lambda: rt.HyperbolicRTransform(*args)  # noqa: E731
+            dom = "pos"
+        elif cls == "IdentityRTransform":
+            make = lambda: rt.IdentityRTransform()  # noqa: E731
+            dom = "pos"
+        elif cls == "LinearFiniteRTransform":
+            args = (float(rng.uniform(0.0, 0.5)), float(rng.uniform(1.0, 30.0)))
+            make = lambda: rt.LinearFiniteRTransform(*args)  # noqa: E731
+            dom = "unit"
+        elif cls in ("BeckeRTransform", "MultiExpRTransform"):
+            args = (float(rng.uniform(0.0, 0.1)), float(rng.uniform(0.5, 3.0)))
+            trim = bool(rng.random() < 0.7)
+            make = lambda: getattr(rt, cls)(*args, trim_inf=trim)  # noqa: E731
+            dom = "unit"
+        elif cls in ("KnowlesRTransform", "HandyRTransform"):
+            args = (float(rng.uniform(0.0, 0.1)), float(rng.uniform(0.5, 3.0)), int(rng.integers(1, 4)))
+            make = lambda: getattr(rt, cls)(*args)  # noqa: E731
+            dom = "unit"
+        elif cls == "HandyModRTransform":
+            args = (float(rng.uniform(0.0, 0.05)), float(rng.uniform(10.0, 50.0)), int(rng.integers(1, 4)))
+            make = lambda: rt.HandyModRTransform(*args)  # noqa: E731
+            dom = "unit"
+        elif cls == "InverseRTransform":
+            inner = ["BeckeRTransform", "LinearFiniteRTransform", "KnowlesRTransform", "ExpRTransform"][int(rng.integers(4))]
+            if inner == "ExpRTransform":
+                ia = (float(10 ** rng.uniform(-3, -1)), float(rng.uniform(5.0, 50.0)), float(rng.uniform(4, 40)))
+                imake = lambda: rt.ExpRTransform(*ia)  # noqa: E731
+                idom = "pos"
+            elif inner == "LinearFiniteRTransform":
+                ia = (float(rng.uniform(0.0, 0.5)), float(rng.uniform(1.0, 30.0)))
+                imake = lambda: rt.LinearFiniteRTransform(*ia)  # noqa: E731
+                idom = "unit"
+            elif inner == "BeckeRTransform":
+                ia = (float(rng.uniform(0.0, 0.1)), float(rng.uniform(0.5, 3.0)))
+                imake = lambda: rt.BeckeRTransform(*ia)  # noqa: E731
+                idom = "unit"
+            else:
+                ia = (float(rng.uniform(0.0, 0.1)), float(rng.uniform(0.5, 3.0)), int(rng.integers(1, 4)))
+                imake = lambda: rt.KnowlesRTransform(*ia)  # noqa: E731
+                idom = "unit"
+            make = lambda: rt.InverseRTransform(imake())  # noqa: E731
+            dom = ("image", imake, idom)
+        else:
+            raise ValueError(cls)
+        rec = {"kind": "tf", "cls": cls, "b": None, "infer": False, "factory": make, "dom": dom, "fixed": True}
+        with self.guard(cls) as gd:
+            rec["obj"] = make()
+        return rec if gd.ok else None
+
+    def admissible(self, dom, n, hyper=False):
+        """Fresh admissible argument values for a domain kind."""
+        rng = self.rng
+        if dom == "unit":
+            return rng.uniform(-0.95, 0.95, n)
+        if dom == "pos":
+            kind = int(rng.integers(3))
+            if kind == 0:
+                return np.arange(n, dtype=float)
+            if kind == 1:
+                return rng.permutation(np.arange(n, dtype=float))
+            return rng.uniform(0.0, 11.0, n)
+        _, imake, idom = dom  # image of an inner transform (argument of an InverseRTransform)
+        return np.array(imake().transform(self.admissible(idom, n)), dtype=float)
+
+    def session_call(self, ss, meth, why):
+        """Call ``meth`` on the session's instance with the SAME argument object as before; compare with a fresh
+        instance (model b) evaluated on a COPY of the argument's current values, bit for bit."""
+        rec = ss["rec"]
+        ctx = self.ctx
+        inv = meth in INV
+        buf = ss["r"] if inv else ss["x"]
+        cur = np.array(buf)  # current values (copy)
+        if rec["infer"] and rec["b"] is None:
+            rec["b"] = np.max(cur)
+            ctx.hit("op:tf_first_call_infers_b")
+        subj = f"{rec['cls']}.{meth}[same-argument-object]"
+        got = got_exc = want = want_exc = None
+        try:
+            if meth == "transform_1d_grid":
+                got = rec["obj"].transform_1d_grid(ss["grid"])
+            else:
+                got = getattr(rec["obj"], meth)(buf)
+        except Exception as exc:  # noqa - compared with the model below
+            from gridrv import core
+
+            if not core.is_library_exception(exc):
+                raise
+            got_exc = exc
+        try:
+            model = self.fresh_tf(rec)
+            if meth == "transform_1d_grid":
+                from grid.basegrid import OneDGrid
+
+                g0 = ss["grid"]
+                want = model.transform_1d_grid(OneDGrid(cur, np.array(g0.weights), g0.domain))
+            else:
+                want = getattr(model, meth)(cur)
+        except Exception as exc:  # noqa
+            want_exc = exc
+        ctx.hit("session:same-object-call")
+        ctx.count(f"class:session-call:{rec['cls']}.{meth}")
+        det = {"observed_after": why, "hist": self.hid, "op": self.op, "step": ss["step"]}
+        if got_exc is not None or want_exc is not None:
+            same = got_exc is not None and want_exc is not None and type(got_exc) is type(want_exc)
+            if same:
+                ctx.count(f"session:rejected-by-instance-and-fresh-model-alike:{rec['cls']}.{meth}:{type(got_exc).__name__}")
+                return
+            det["instance"] = "ok" if got_exc is None else f"{type(got_exc).__name__}: {got_exc}"[:160]
+            det["fresh_model"] = "ok" if want_exc is None else f"{type(want_exc).__name__}: {want_exc}"[:160]
+            ctx.check("transform-equals-fresh-instance", subj, False, sig="raises-unlike-fresh-instance", detail=det)
+            return
+        if meth == "transform_1d_grid":
+            pairs = [("points", got.points, want.points), ("weights", got.weights, want.weights), ("domain", np.asarray(got.domain, dtype=float), np.asarray(want.domain, dtype=float))]
+            outs = [got.points, got.weights]
+        else:
+            pairs = [("result", got, want)]
+            outs = [got]
+        for name, g, w in pairs:
+            g = np.asarray(g, dtype=float)
+            w = np.asarray(w, dtype=float)
+            ok = H.same_bits(g, w)
+            sig = None
+            d2 = dict(det)
+            if not ok:
+                scales = [1.0]
+                try:
+                    base = np.asarray(self.fresh_tf(rec).transform(np.array(ss["x"])), dtype=float)
+                    with np.errstate(all="ignore"):
+                        ratio = (w.ravel() / base.ravel()) if w.size == base.size else np.array([])
+                    scales += [float(v) for v in ratio[np.isfinite(ratio) & (ratio != 0)][:3]]
+                except Exception:  # noqa
+                    pass
+                sig, d3 = H.corruption_sig(g, w, tuple(scales))
+                d2.update(d3)
+                prev = ss["r_prev"] if inv else ss["x_prev"]
+                if sig.startswith("values-differ") and prev is not None and meth != "transform_1d_grid":
+                    try:
+                        if H.same_bits(g, np.asarray(getattr(self.fresh_tf(rec), meth)(np.array(prev)), dtype=float)):
+                            sig = "stale:result-for-earlier-values-of-the-same-array-object"
+                    except Exception:  # noqa
+                        pass
+            ctx.check("transform-equals-fresh-instance", subj if name == "result" else f"{subj}.{name}", ok, sig=sig, detail=d2)
+        if rec["cls"] in ("ExpRTransform", "PowerRTransform", "LinearInfiniteRTransform"):
+            rb = rec["obj"].b
+            same = rb is not None and rec["b"] is not None and float(rb) == float(rec["b"])
+            ctx.check("transform-scale-fixed-once", f"{rec['cls']}.b[{'b-inferred' if rec['infer'] else 'b-given'}]", bool(same), sig="b-changed-after-" + meth, detail={"instance_b": None if rb is None else float(rb), "model_b": float(rec["b"]), "hist": self.hid, "op": self.op})
+        for o in outs:
+            if isinstance(o, np.ndarray) and o.ndim == 1:
+                ss["returned"].append((meth, o))
+        del ss["returned"][:-10]
+
+    def session_sweep(self, ss, why):
+        """Deciding comparison of EVERY method, each called with the session's own argument objects, in random order."""
+        meths = FWD4 + INV + (["transform_1d_grid"] if ss.get("grid") is not None else [])
+        if ss["rec"]["cls"] == "LinearInfiniteRTransform" and ss["rec"]["infer"] and ss["rec"]["b"] is None:
+            self.session_call(ss, "transform", why)
+        for i in self.rng.permutation(len(meths)):
+            self.session_call(ss, meths[int(i)], why)
+
+    def op_tf_session(self, cls=None, nsteps=None):
+        from grid.basegrid import OneDGrid
+
+        rng = self.rng
+        ss = None
+        if cls is None and self.sessions and rng.random() < 0.3:
+            ss = self.sessions[int(rng.integers(len(self.sessions)))]  # continue an earlier session (same objects)
+        elif cls is not None and self.sessions and rng.random() < 0.5:
+            ss = self.sessions[-1]
+        if ss is None:
+            cls = cls or SESSION_CLASSES[int(rng.integers(len(SESSION_CLASSES)))]
+            rec = self.make_session_tf(cls)
+            if rec is None:
+                return
+            n = int(rng.integers(4, 13))
+            x = self.admissible(rec["dom"], n)
+            ss = {"rec": rec, "x": x, "x_prev": None, "r_prev": None, "returned": [], "step": 0, "n": n}
+            # argument of the inverse-type methods: admissible image values, its own persistent object
+            try:
+                m0 = rec["factory"]() if "factory" in rec else getattr(__import__("grid.rtransform", fromlist=["x"]), cls)(rec["args"][0], rec["args"][1], rec["b"] if rec["b"] is not None else float(np.max(x)) or 1.0)
+                r = np.array(m0.transform(self.admissible(rec["dom"], n)), dtype=float)
+                r = r[np.isfinite(r)]
+                ss["r"] = r if r.size else np.array([0.5, 1.0])
+            except Exception:  # noqa - model could not produce image values: use plain positive numbers
+                ss["r"] = rng.uniform(0.2, 0.9, n)
+            if rec["dom"] in ("pos", "unit"):
+                dom = (0, np.inf) if rec["dom"] == "pos" and cls != "HyperbolicRTransform" else ((0, 13.0) if rec["dom"] == "pos" else (-1, 1))
+                ss["grid"] = OneDGrid(x, rng.uniform(0.1, 1.0, n), dom)  # the grid holds the SAME points object
+            else:
+                ss["grid"] = None
+            self.sessions.append(ss)
+        rec = ss["rec"]
+        self.ctx.hit("op:tf_session")
+        self.ctx.count(f"class:tf_session:{rec['cls']}")
+        self.log.append(f"session({rec['cls'][:6]})")
+        if rec["infer"] and rec["b"] is None:
+            self.session_call(ss, "transform", "first call of the session (fixes b)")
+        for _ in range(nsteps or int(rng.integers(4, 10))):
+            ss["step"] += 1
+            u = rng.random()
+            if u < 0.45 or not ss["returned"]:
+                meths = FWD4 + INV + (["transform_1d_grid"] if ss["grid"] is not None else [])
+                p = np.array([4, 3, 2, 2, 1, 1, 1, 1] + ([1.5] if ss["grid"] is not None else []), dtype=float)
+                meth = meths[int(rng.choice(len(meths), p=p / p.sum()))]
+                self.session_call(ss, meth, "call in a session")
+                why = f"{meth} with the same argument object"
+            elif u < 0.72:
+                # in-place sentinel edit of an array RETURNED by an earlier call (preferably the latest transform result)
+                tr = [i for i, (m, _) in enumerate(ss["returned"]) if m == "transform"]
+                i = tr[-1] if tr and rng.random() < 0.6 else int(rng.integers(len(ss["returned"])))
+                m, arr = ss["returned"][i]
+                S = H.sentinel(self.hid, self.op, f"tf.returned:{m}")
+                try:
+                    mode = int(rng.integers(3))
+                    if mode == 0:
+                        arr[...] = S
+                    elif mode == 1:
+                        arr.flat[int(rng.integers(arr.size))] = S
+                    else:
+                        arr[: max(1, arr.size // 2)] = S
+                    self.ctx.hit("session:edit-returned")
+                    self.ctx.count(f"class:session-edit-returned:{m}")
+                except ValueError as exc:
+                    if "read-only" not in str(exc):
+                        raise
+                    self.ctx.count("edit-rejected:array-is-read-only")
+                why = f"in-place edit of the array returned by {m} writing {S:.0f}"
+            else:
+                # in-place change of the ARGUMENT array (stays admissible; same object afterwards)
+                which = "r" if rng.random() < 0.25 else "x"
+                buf = ss[which]
+                ss[which + "_prev"] = np.array(buf)
+                mode = int(rng.integers(4))
+                if which == "x":
+                    if mode == 0:
+                        buf[...] = self.admissible(rec["dom"], buf.size)
+                    elif mode == 1:
+                        buf[...] = buf[rng.permutation(buf.size)]
+                    elif mode == 2:
+                        if rec["dom"] == "unit":
+                            buf *= -1.0
+                        elif rec["dom"] == "pos" and float(np.max(buf)) <= 11.5:
+                            buf += 0.5
+                        else:
+                            buf[...] = self.admissible(rec["dom"], buf.size)
+                    else:
+                        buf[int(rng.integers(buf.size))] = self.admissible(rec["dom"], buf.size)[0]
+                else:
+                    if mode % 2 == 0:
+                        buf[...] = buf[rng.permutation(buf.size)]
+                    else:
+                        j, k = int(rng.integers(buf.size)), int(rng.integers(buf.size))
+                        buf[j] = 0.5 * (buf[j] + buf[k])
+                self.ctx.hit("session:edit-input")
+                why = f"in-place change of the argument array ({which})"
+            self.session_sweep(ss, why)
+
     def op_gauss(self):
         syms = list(ELEMENTS)
         sym = syms[int(self.rng.integers(len(syms)))]
@@ -888,6 +1194,15 @@ def run_case(ctx, family, params):
         return _witness(ctx, params)
     if family == "recorded-not-decided":
         return _recorded(ctx, params)
+    if family == "transform-reuse":
+        h = History(ctx, params["hid"], family)
+        for _ in range(3):
+            h.op += 1
+            h.op_tf_session(cls=params["cls"], nsteps=12)
+        h.op += 1
+        h.finish()
+        ctx.case_note("ops", h.log[:12])
+        return None
     h = History(ctx, params["hid"], family)
     h.run(int(params["nops"]))
     ctx.case_note("ops", h.log[:12])
@@ -974,6 +1289,18 @@ def _recorded(ctx, p):
             "of the SAME object returns later (own attribute, like .weights)",
             l0_component_before=before,
             l0_component_after=after,
+        )
+    except Exception as exc:  # noqa
+        ctx.count("recorded-not-decided:probe-raised:" + type(exc).__name__)
+    try:
+        from grid.rtransform import IdentityRTransform
+
+        x = np.arange(4.0)
+        tf = IdentityRTransform()
+        ctx.observe(
+            "IdentityRTransform.transform / inverse return the caller's argument array itself (an edit of the 'returned' array edits the argument); compared by value only",
+            transform_returns_argument=bool(tf.transform(x) is x),
+            inverse_returns_argument=bool(tf.inverse(x) is x),
         )
     except Exception as exc:  # noqa
         ctx.count("recorded-not-decided:probe-raised:" + type(exc).__name__)
